@@ -39,7 +39,8 @@ def make_config(seed, tier, index=None):
             "upgrade_to_defaults": ac == "yes" and r.random() < 0.5,
             # the operator converts the default collections into bare repositories while the server is down
             "migrate_to_bare": ac == "defaults" and r.random() < 0.4,
-            "stray": r.random() < 0.3}
+            "stray": r.random() < 0.3,
+            "probe_root_mount": r.random() < 0.4}
 
 
 class DiscoRun:
@@ -82,6 +83,13 @@ class DiscoRun:
             return r, None
         return r, rs
 
+    def in_mount(self, path, what, phase):
+        """An href handed out below a route prefix stays below it (a second mount of the same
+        application - here the bare root - must not leak into the answers of this one)."""
+        pre = self.world.prefix.rstrip("/")
+        if (pre and not (path == pre or path.startswith(pre + "/"))) or urllib.parse.unquote(path).startswith("/@alias"):
+            self.v("C18.href-leaves-the-mount-point", "%s: %s href %r is outside the route prefix (%s)" % (self.layout(), what, path, phase), step="mount", which=what)
+
     def discover(self, phase):
         """Returns {"calendars": [targets], "addressbooks": [targets]} or None."""
         w = self.world
@@ -106,6 +114,7 @@ class DiscoRun:
             self.v("C18.no-current-user-principal", "%s: PROPFIND %s gives no current-user-principal href (%s)" % (self.layout(), start, phase), step="root")
             return None
         princ = dav.href_path(hrefs[0], start)
+        self.in_mount(princ, "current-user-principal", phase)
         r, rs = self.propfind(princ, [dav.P_CAL_HOME, dav.P_AB_HOME, dav.P_RESOURCETYPE, dav.P_PRINCIPAL_URL])
         if not rs or rs[0].status == 404:
             self.v("C18.principal-href-does-not-resolve", "%s: current-user-principal %r -> PROPFIND %s -> %s (%s)" % (self.layout(), hrefs[0], princ, r.status if r else None, phase), step="principal")
@@ -121,6 +130,7 @@ class DiscoRun:
                 self.v("C18.no-home-set", "%s: principal %s has no %s (%s)" % (self.layout(), princ, tag.split("}")[1], phase), step="home-set", which=key)
                 continue
             home = dav.href_path(hs[0], princ)
+            self.in_mount(home, tag.split("}")[1], phase)
             out["homes"].append(home)
             r2, rs2 = self.propfind(home, [dav.P_RESOURCETYPE, dav.P_DISPLAYNAME, dav.P_SYNCTOKEN], depth="1")
             if not rs2 or (rs2[0].status == 404):
@@ -169,6 +179,12 @@ class DiscoRun:
         c = self.cfg
         w = self.world
         r = self.rng
+        if c.get("probe_root_mount") and c["frontend"] == "wsgi":
+            # the same application object is also published under a second mount point (an alias):
+            # what it answers there must not stick to what it answers below the configured prefix
+            self.propfind("/@alias/", [dav.P_CUP])
+            self.propfind("/@alias" + c["principal"], [dav.P_CUP, dav.P_CAL_HOME])
+            self.count("requests_through_second_mount", 2)
         found = self.discover("first start")
         self.ops.append({"op": "discover", "found": {k: len(v) for k, v in (found or {}).items()}})
         if found is None:
